@@ -332,6 +332,24 @@ func (s WalletSnap) Without(spent map[types.SiacoinOutputID]bool) (WalletSnap, i
 	return out, n
 }
 
+// RestrictTo returns the part of s that concerns the outputs of ref (same
+// order), with ref's balance: used when the chain grew between the two
+// snapshots and newly matured outputs must not count as a difference.
+func (s WalletSnap) RestrictTo(ref WalletSnap) WalletSnap {
+	in := make(map[types.SiacoinOutputID]bool, len(ref.Spendable))
+	for _, id := range ref.Spendable {
+		in[id] = true
+	}
+	out := WalletSnap{Balance: ref.Balance}
+	for i, id := range s.Spendable {
+		if in[id] {
+			out.Spendable = append(out.Spendable, id)
+			out.Values = append(out.Values, s.Values[i])
+		}
+	}
+	return out
+}
+
 // EqualModuloUnconfirmed is Equal ignoring the unconfirmed balance (which
 // counts outputs created by pool transactions).
 func (s WalletSnap) EqualModuloUnconfirmed(o WalletSnap) bool {
@@ -347,6 +365,9 @@ type RenterSigner struct {
 	UseUnconfirmed bool
 	// FeeOverride, if set, is what RecommendedFee reports (signer behaviour)
 	FeeOverride *types.Currency
+	// OnSign, if set, runs inside SignV2Inputs before the inputs are signed
+	// (the moment between receiving the host's inputs and answering)
+	OnSign func()
 }
 
 // FundV2Transaction implements rhp.TransactionFunder.
@@ -367,6 +388,9 @@ func (s *RenterSigner) ReleaseInputs(txns []types.V2Transaction) { s.W.ReleaseIn
 
 // SignV2Inputs implements rhp.TransactionInputSigner.
 func (s *RenterSigner) SignV2Inputs(txn *types.V2Transaction, toSign []int) {
+	if s.OnSign != nil {
+		s.OnSign()
+	}
 	s.W.SignV2Inputs(txn, toSign)
 }
 
@@ -396,6 +420,48 @@ type Contractor struct {
 	mu     sync.Mutex
 	seq    int
 	events []ContractEvent
+	// last revision the host committed (revise / credit), for a peer that
+	// re-signs exactly what the host signed
+	lastRev   types.V2FileContract
+	lastRevID types.FileContractID
+	haveLast  bool
+}
+
+func (c *Contractor) noteRevision(id types.FileContractID, rev types.V2FileContract, err error) {
+	if err != nil {
+		return
+	}
+	c.mu.Lock()
+	c.lastRevID, c.lastRev, c.haveLast = id, rev, true
+	c.mu.Unlock()
+}
+
+// LastRevision returns the revision most recently committed by a handler.
+func (c *Contractor) LastRevision() (types.FileContractID, types.V2FileContract, bool) {
+	c.mu.Lock()
+	defer c.mu.Unlock()
+	return c.lastRevID, c.lastRev, c.haveLast
+}
+
+// ReviseV2Contract implements rhp.Contractor.
+func (c *Contractor) ReviseV2Contract(id types.FileContractID, rev types.V2FileContract, roots []types.Hash256, usage rhp4.Usage) error {
+	err := c.EphemeralContractor.ReviseV2Contract(id, rev, roots, usage)
+	c.noteRevision(id, rev, err)
+	return err
+}
+
+// CreditAccountsWithContract implements rhp.Contractor.
+func (c *Contractor) CreditAccountsWithContract(d []rhp4.AccountDeposit, id types.FileContractID, rev types.V2FileContract, usage rhp4.Usage) ([]types.Currency, error) {
+	b, err := c.EphemeralContractor.CreditAccountsWithContract(d, id, rev, usage)
+	c.noteRevision(id, rev, err)
+	return b, err
+}
+
+// CreditPoolsWithContract implements rhp.Contractor.
+func (c *Contractor) CreditPoolsWithContract(d []rhp4.AccountDeposit, id types.FileContractID, rev types.V2FileContract, usage rhp4.Usage) ([]types.Currency, error) {
+	b, err := c.EphemeralContractor.CreditPoolsWithContract(d, id, rev, usage)
+	c.noteRevision(id, rev, err)
+	return b, err
 }
 
 // AddV2Contract implements rhp.Contractor.
